@@ -552,7 +552,7 @@ def show_obs(ob, objidx):
 class Impl:
     """builds the classes of a case on the real txdbus and runs operations one at a time"""
 
-    def __init__(self, case):
+    def __init__(self, case, warm=True):
         from txdbus import objects, interface
         self.objects_mod = objects
         self.case = case
@@ -596,11 +596,29 @@ class Impl:
         self.cls = base
         self.paths = ['/o%d' % n for n in range(case['nobj'])]
         self.objidx = {p: n for n, p in enumerate(self.paths)}
+        classes_of = [self.cls] * case['nobj']
+        if 'siblings' in case:
+            # case['classes'] is the common base chain; every instance is of its own subclass of it
+            classes_of = []
+            for n, c in enumerate(case['siblings']):
+                ns = {}
+                ifs = []
+                for f in c['ifaces']:
+                    ps = [interface.Property(q[0], q[1], readable=q[2], writeable=q[3],
+                                             emitsOnChange={'t': True, 'f': False, 'i': 'invalidates'}[q[4]])
+                          for q in f['props']]
+                    ifs.append(interface.DBusInterface(f['name'], *ps, noRegister=True))
+                if ifs:
+                    ns['dbusInterfaces'] = ifs
+                for a, pn, i in c['descs']:
+                    ns[a] = objects.DBusProperty(pn, i)
+                classes_of.append(type('C17Sibling%d' % n, (self.cls,), ns))
         try:
-            for p in self.paths:
-                o = self.cls(p)
-                # the walk exportObject does for the last interface of getInterfaces(): builds every class cache
-                o.getAllProperties(PROPS)
+            for n, p in enumerate(self.paths):
+                o = classes_of[n](p)
+                if warm:
+                    # the walk exportObject does for the last interface of getInterfaces(): builds every class cache
+                    o.getAllProperties(PROPS)
                 self.objs.append(o)
             self.decl_lines.append('ok')
         except (AttributeError, KeyError):
@@ -831,6 +849,9 @@ class Oracle:
                 return
             v = plain(v)
             self.wrote(o, i, p, ('v', v, 'local'))
+            if raised and o not in self.exported:
+                self.wrote(o, i, p, ('?',))        # what a raising statement left behind is not specified
+                return
             if o in self.exported:
                 if raised:
                     self.flag('assign-raises', 'assigning a value of the declared type raises', idx, 'raised', 'stored')
@@ -1025,6 +1046,31 @@ def run_case(case, model_lines=None):
                 res['first_diff'] = k
                 break
     return res
+
+
+def run_oracle_only(case, warm):
+    """no model: the implementation and the oracle(s); for a sibling case one oracle per instance, each seeing
+    the chain [its own subclass] + base chain"""
+    impl = Impl(case, warm=warm)
+    if impl.failed is not None:
+        return dict(viol=[], judged=False, nontrivial=False, stats={'decl:' + impl.failed: 1})
+    if 'siblings' in case:
+        orcs = [Oracle(dict(case, classes=[sib] + case['classes'])) for sib in case['siblings']]
+    else:
+        orcs = [Oracle(case)] * case['nobj']
+    stats = {}
+    ret = asg = False
+    for idx, op in enumerate(case['ops']):
+        line, obs, raised = impl.run_op(op)
+        orcs[op[1]].step(idx, op, obs, raised)
+        k = op[0] + ':' + coarse(line).split(' | ')[-1].split(' ')[0]
+        stats[k] = stats.get(k, 0) + 1
+        ret = ret or line.startswith('ret') or ' | ret' in line
+        asg = asg or op[0] == 'assign'
+    viol = []
+    for oc in dict((id(x), x) for x in orcs).values():
+        viol.extend(oc.viol)
+    return dict(viol=viol, judged=all(oc.judged for oc in orcs), nontrivial=ret and asg, stats=stats)
 
 
 # =========================================================================== generators
